@@ -137,6 +137,9 @@ def main():
         ur = r['main']
         checker_cmds.append(ur.cmd)
         full_fns = set(U.get('full', []))
+        # a full-strength twin belongs to the properties named for it; elsewhere its (expected) failure is not this property's business
+        full_scope = U.get('full_scope', {})
+        ignored_twins = set(f for f in full_fns if full_scope.get(f) and prop not in full_scope[f])
         if ur.compile_errors:
             for ce in ur.compile_errors[:3]:
                 undecided.append('%s: generated file does not type-check: %s (gen line %s)' % (u, ce['message'][:200], ce['line']))
@@ -161,6 +164,8 @@ def main():
             unit_obl += f.obligations()
         failed_here = 0
         for e in ur.errors:
+            if e['function'] in ignored_twins:
+                continue
             if e['function'] in full_fns:
                 # full-strength twin of a known finding
                 hit = None
